@@ -624,6 +624,14 @@ def explore(pid, budget_s=30.0, seed=0, repo_root="/repo", only=None, max_len=6,
         for nm in names:          # constructors of links are needed to get anywhere
             if nm.startswith("new_edge") or nm == "link_from_to":
                 weights[nm] = max(weights[nm], 4.0)
+    if "traverse" in groups:
+        # graph shape matters here: longer histories made mostly of edge creations, then traversals / searches
+        max_len = max(max_len, 10)
+        weights = dict(weights or {})
+        for nm, (_f, _a, g) in OPS.items():
+            if g in groups:
+                weights.setdefault(nm, 1.0)
+        weights.update({"new_edge": 9.0, "link_from_to": 2.0, "traverse": 5.0, "search": 5.0, "u_add_vertex": 3.0, "set_tag": 1.5})
     hist = []
     sysq = []
     if focus:
